@@ -385,14 +385,26 @@ func TestVerifReplay(t *testing.T) {
 		if !CheckOnCurve(c.x, c.y) { t.Fatalf("case %%d: point [d]G judged off the curve", i) }
 		bad := append([]byte{}, c.y...); bad[31] ^= 1
 		if CheckOnCurve(c.x, bad) { t.Fatalf("case %%d: off-curve point accepted", i) }
+		// key generation from a stream [rejected candidate || d || ...] delivered whole and in chunks (short reads without
+		// error are legal for an io.Reader): the key is the first acceptable 32-byte unit and the public key belongs to it
+		stream := append(append(bytes.Repeat([]byte{0xff}, 32), c.d...), bytes.Repeat([]byte{0x22}, 64)...)
+		for _, chunk := range []int{32, 16, 31, 1} {
+			rd := &chunkReader{b: stream, chunk: chunk}
+			d, x, y, err := GenerateKey(rd)
+			if err != nil || !bytes.Equal(d, c.d) || !bytes.Equal(x, c.x) || !bytes.Equal(y, c.y) || rd.used != 64 { t.Fatalf("case %%d: GenerateKey from a reader delivering %%d bytes per call: key %%x (want %%x), used %%d, err %%v", i, chunk, d, c.d, rd.used, err) }
+		}
 	}
-}''' % '\n'.join(rows)
+}
+type chunkReader struct{ b []byte; used, chunk int }
+func (r *chunkReader) Read(p []byte) (int, error) { if len(p) > r.chunk { p = p[:r.chunk] }; n := copy(p, r.b[r.used:]); r.used += n; return n, nil }
+var _ = bytes.Equal
+''' % '\n'.join(rows)
     ok, out, path = ck.go_test('sm2', src, name='validate')
     if ok is True:
         ck.validated += len(vals)
     elif ok is False:
         ck.record('reference_points', 'violated', 'real build disagrees with the reference on concrete keys/points: ' + (out or '')[-200:].replace('\n', ' '))
-        ck.violation('reference-points', 'DerivePublic/CheckOnCurve disagree with the reference on [d]G for d in {1,2,n-2,random}', path)
+        ck.violation('reference-points', 'DerivePublic/CheckOnCurve/GenerateKey disagree with the reference on concrete keys (d in {1,2,n-2,random}; streams delivered in chunks)', path)
     ck.finish()
 
 
